@@ -52,6 +52,7 @@ type Config struct {
 	Soup  bool     `json:"soup"`
 	Class string   `json:"class"`
 	TCP   bool     `json:"loopback_tcp"`
+	Ages  bool     `json:"session_and_context_age_set"`
 }
 
 func kindsFor(p protos.P) []string {
@@ -114,6 +115,7 @@ func configs(tierName string, r *core.Rand) []Config {
 			c.N = ops / 2
 		}
 		c.TCP = i%5 == 4
+		c.Ages = i%4 == 3 // generous session / context ages: the deadline code paths run, no deadline can expire
 		if *lean {
 			c.N = c.N/2 + 1
 		}
@@ -259,6 +261,9 @@ func runCase(id string, cfg Config, r *core.Rand) {
 		// connection mid-traffic, so redial runs concurrently with calls, pushes and the API soup
 		pacfg.RedialTimes, pacfg.RedialInterval = 3, time.Millisecond
 	}
+	if cfg.Ages {
+		pacfg.DefaultSessionAge, pacfg.DefaultContextAge = 10*time.Minute, 10*time.Minute
+	}
 	var acceptor *tcpAcceptor
 	defer func() {
 		if acceptor != nil {
@@ -266,7 +271,11 @@ func runCase(id string, cfg Config, r *core.Rand) {
 		}
 	}()
 	pa := erpc.NewPeer(pacfg)
-	pb := erpc.NewPeer(erpc.PeerConfig{PrintDetail: cfg.Log != "OFF", CountTime: cfg.Log != "OFF"})
+	pbcfg := erpc.PeerConfig{PrintDetail: cfg.Log != "OFF", CountTime: cfg.Log != "OFF"}
+	if cfg.Ages {
+		pbcfg.DefaultSessionAge, pbcfg.DefaultContextAge = 10*time.Minute, 10*time.Minute
+	}
+	pb := erpc.NewPeer(pbcfg)
 	tok.Register(pa)
 	tok.Register(pb)
 	var links []*bed.Link
@@ -433,7 +442,7 @@ func runCase(id string, cfg Config, r *core.Rand) {
 	core.Add("gate_hits", hits)
 	core.Add("evaluations", cs.callsOK+cs.callsFailed+cs.pushesSent)
 	core.Max("max_handlers_in_flight", mon.MaxFlight)
-	sig := fmt.Sprintf("%s/%s/pipe=%s/S%dG%d/%s/log=%s/delay=%d/tcp=%v", cfg.Proto, strings.Join(cfg.Kinds, "+"), cfg.Pipe, cfg.S, cfg.G, cfg.Chunk, cfg.Log, cfg.Delay, cfg.TCP && p.Stream)
+	sig := fmt.Sprintf("%s/%s/pipe=%s/S%dG%d/%s/log=%s/delay=%d/tcp=%v", cfg.Proto, strings.Join(cfg.Kinds, "+"), cfg.Pipe, cfg.S, cfg.G, cfg.Chunk, cfg.Log, cfg.Delay, cfg.TCP && p.Stream) + fmt.Sprintf("/ages=%v", cfg.Ages)
 	nontrivial := mon.MaxFlight >= 2 && (mon.Recycles >= 1 || *lean) && cs.callsOK > 0
 	if cfg.S == 1 && cfg.G == 1 {
 		nontrivial = cs.callsOK > 0 && (mon.Recycles >= 1 || *lean)
